@@ -26,6 +26,8 @@ res = {"dir": d, "checks": {}}
 try:
     rc, o = sh(["git", "-C", wt, "apply", os.path.join(d, "patch.diff")])
     res["patch_applies"] = rc == 0
+    if rc != 0:
+        print("PATCH DOES NOT APPLY:", d, o[:200])
     rc, o = sh(["/venv/bin/python", "-m", "pytest", "-q", "-p", "no:cacheprovider", "--timeout=900"], cwd=wt,
                env=dict(os.environ, PYTHONPATH=wt, PYTHONDONTWRITEBYTECODE="1"))
     res["suite_tail"] = o.strip().split("\n")[-1]
